@@ -10,12 +10,15 @@ PROPS = {
               "outcomes are unreachable on EVERY input under the guard the code runs them with (theorems collected from the owning packages); "
               "parser/attribute.go with the heading glue (ParseAttributes from every reader offset, parseLastLineAttributes, ATX Open/Close with "
               "WithAttribute/WithAutoHeadingID: attribute_parser_total, attribute_last_line_total, attribute_heading_total); "
-              "the util transformers are total definitions with justified recursion. Searched, not proved: the composition through the block "
-              "parsers and the concrete inline parsers, by Convert and Parse+Render over exhaustive short strings and mutated corpora under the "
+              "the util transformers are total definitions with justified recursion. The WHOLE BLOCK PHASE (parseBlocks/openBlocks/closeBlocks with the "
+              "ten default block parsers) returns a tree for EVERY byte string: no Go run-time panic, no fuel exhaustion, the BlockParser contract "
+              "kept at every goto retry (block_phase_no_panic, block_phase_never_errs, block_phase_contract_kept); the WHOLE INLINE PHASE of a "
+              "block is total for every source (inline_phase_total). Searched, not proved: the composition of the phases with paragraph "
+              "transformers, extensions and options, by Convert and Parse+Render over exhaustive short strings and mutated corpora under the "
               "configuration lattice with panic recovery and a per-input watchdog. A theorem cannot reach stack depth or running time.",
         note="Trusted: Lean kernel (+ propext, Classical.choice, Quot.sound); the correspondence checks that tie each model to its Go code (they are "
-             "run by the owning properties' checks); the watchdog bound (200x the median of same-size inputs, floor 2 s). Block parsers and concrete "
-             "inline parsers are not yet inside the proved model.",
+             "run by the owning properties' checks); the watchdog bound (200x the median of same-size inputs, floor 2 s). Paragraph transformers, "
+             "extension block/inline parsers and the hand-over between the phases are not yet inside the proved model.",
         technique="Lean 4 no-panic / termination theorems over the models of the components + exhaustive and random search with watchdog on the whole pipeline",
         components=["total", "blocks", "inlines", "attribute"],
         explanation="Proved per modelled component for all inputs (see theorem list); searched: every string of length <= 3 over a 22-symbol and <= 4 "
@@ -512,8 +515,12 @@ PROPS = {
               "iff the trace is within the proviso, and then its final heap represents the forest) and the model's final heap is compared with the "
               "real final tree. Clause (c) pieces proved: text segments left by the inline driver loop lie inside the block's lines in increasing "
               "order (inline_text_segments_monotone), reader / block-reader positions lie inside the source (reader_positions_in_range, "
-              "blockReader_positions_in_range). Searched, not proved: clauses (b) kinds-in-places and (c) for block lines and for Text nodes re-cut "
-              "by the built-in inline parsers - the Lean-defined predicate GM.Spec.AstWF.wfAst (the formal statement of C05) and an independent Go "
+              "blockReader_positions_in_range); every line segment of every block the block phase builds lies inside the source, for EVERY byte "
+              "string (block_lines_in_range); the tree the inline phase returns for a block has its segments in range and in document order, no "
+              "bookkeeping node, emphasis levels 1-2, text-only code spans, no link in a link, for EVERY source (inline_segments_in_range_and_ordered, "
+              "no_bookkeeping_node_survives, emphasis_levels_1_2, code_spans_hold_text, links_never_nested). Searched, not proved: clause (b) for "
+              "block kinds (list items only in lists), the ORDER of a block's lines, and everything under extensions / paragraph transformers "
+              "- the Lean-defined predicate GM.Spec.AstWF.wfAst (the formal statement of C05) and an independent Go "
               "checker are evaluated on every parsed tree (component wfast).",
         note="Trusted: Lean kernel (+ propext, Classical.choice, Quot.sound); the hand transcription GM.Model.AstHeap of ast/ast.go (tied by C13's "
              "components ast/walk and, here, by replaying real parser traces); the hook ast/verif_trace.go (build tag verif; reports a call iff no "
